@@ -39,7 +39,7 @@ GEN = "dagrt.codegen.fortran.CodeGenerator"
 FORTRAN_CMP = {"==", "<", "<=", ">", ">=", "/="}
 
 
-def check(run, P):
+def _check_main(run, P):
     run.rule("C03.guard", "no emit handler reads inst.condition; rewritten statements "
              "have their condition expressed structurally (shared with C07.guard)",
              minimum=3)
@@ -73,6 +73,12 @@ def check(run, P):
              "result it assigns", minimum=3)
     run.rule("C03.utypes", "user types are collected from the *kinds* of every table "
              "(global and per phase)", minimum=2)
+    run.rule("C03.effects", "every Fortran statement handler has its effect on every "
+             "path: slots assigned, successor set, exit taken, program stopped", minimum=8)
+    run.rule("C03.pipeline", "every phase goes through the four preparation passes, in "
+             "the order the passes assume, and what is lowered is their result", minimum=2)
+    _effects(run, P)
+    _pipeline(run, P)
     _zip(run, P)
     _splits(run, P)
     _reduce(run, P)
@@ -439,3 +445,104 @@ def _utypes(run, P):
     run.ob("C03.utypes", f, f.node, "global_table" in srcs and "per_phase_table" in srcs,
            construct="both the global table and every per-phase table are scanned",
            why="a type used only by locals still needs its routines")
+
+
+def _effects(run, P):
+    from ..engine.cfg import CFG, walk_fragment
+    G = P.cls(GEN)
+
+    def must(f, pred, what, why):
+        g = CFG(f.node)
+        nodes = [n for n in g.nodes if n.kind == "stmt" and n.ast is not None
+                 and pred([x for x in walk_fragment(n.ast)])]
+        ok = bool(nodes) and g.exit not in g.reachable([g.entry], avoid=nodes, follow_exc=False,
+                                                       include_start=True)
+        run.ob("C03.effects", f, nodes[0].ast if nodes else f.node, ok,
+               construct=f"{f.name}: {what} on every path", why=why)
+
+    def emits(text):
+        def pred(xs):
+            for x in xs:
+                if isinstance(x, ast.Call) and dotted(x.func) == "self.emit" and x.args:
+                    t = string_prefix(x.args[0])
+                    if t is not None and t.startswith(text):
+                        return True
+            return False
+        return pred
+
+    def assigns(slot):
+        def pred(xs):
+            for x in xs:
+                if isinstance(x, ast.Call) and dotted(x.func) == "self.emit_assign_expr" and x.args:
+                    t = string_prefix(x.args[0])
+                    if t is not None and t.startswith(slot):
+                        return True
+            return False
+        return pred
+
+    y = P.method(G, "emit_inst_YieldState")
+    for slot in ("<ret_time_id>", "<ret_time>", "<ret_state>"):
+        must(y, assigns(slot), f"assigns the {slot} slot of the component",
+             "the caller reads the returned state / time / time id from these slots")
+    sp = P.method(G, "emit_inst_SwitchPhase")
+    must(sp, emits("dagrt_state%dagrt_next_phase = "), "sets the next phase",
+         "the interpreter continues in the phase that was switched to")
+    must(sp, emits("goto 999"), "leaves through the exit label",
+         "statements after a switch must not run; the release code is after the label")
+    fs = P.method(G, "emit_inst_FailStep")
+    must(fs, emits("goto 999"), "leaves through the exit label",
+         "a failed step ends at once")
+    rs = P.method(G, "emit_inst_Raise")
+    must(rs, emits("stop"), "stops the program",
+         "the interpreter raises; continuing after a raise computes on")
+    er = P.method(G, "emit_return")
+    must(er, emits("goto 999"), "leaves through the exit label",
+         "normal completion passes the release code after the label")
+
+
+def _pipeline(run, P):
+    f = P.func(f"{GEN}.__call__")
+    fn = None
+    for g_ in f.nested.values():
+        if "eliminate_self_dependencies" in ast.unparse(g_.node):
+            fn = g_
+    if fn is None:
+        raise AnalysisError("fortran CodeGenerator.__call__: pass pipeline not found")
+    want = ["eliminate_self_dependencies", "isolate_function_arguments",
+            "isolate_function_calls", "expand_IfThenElse"]
+    seq = []
+    cur = fn.params[0]
+    chained = True
+    for s_ in func_body_stmts(fn.node):
+        if isinstance(s_, ast.Assign) and isinstance(s_.value, ast.Call) \
+                and dotted(s_.value.func) in want:
+            seq.append(dotted(s_.value.func))
+            if not (s_.value.args and dotted(s_.value.args[0]) == cur
+                    and isinstance(s_.targets[0], ast.Name)):
+                chained = False
+            else:
+                cur = s_.targets[0].id
+    rets = [r for r in ast.walk(fn.node) if isinstance(r, ast.Return)]
+    ok = seq == want and chained and len(rets) == 1 and dotted(rets[0].value) == cur
+    run.ob("C03.pipeline", fn, fn.node, ok,
+           construct=f"passes applied: {seq}, each to the result of the one before; the last result is returned",
+           why="the Fortran emitters assume no statement reads what it assigns, every "
+               "call argument is a variable, every call stands alone and no conditional "
+               "expression is left; a pass left out or applied to a stale tree breaks "
+               "that (an assertion at generation time at best)")
+    calls = [x for x in ast.walk(f.node) if isinstance(x, ast.Call) and dotted(x.func) == fn.name]
+    loops = [lp for lp in ast.walk(f.node) if isinstance(lp, ast.For)
+             and any(c in list(ast.walk(lp)) for c in calls)]
+    ok = bool(calls) and bool(loops) and all(
+        isinstance(c.args[0], ast.Name) for c in calls) and any(
+        "create_ast_from_phase" in ast.unparse(lp) for lp in loops)
+    run.ob("C03.pipeline", f, calls[0] if calls else f.node, ok,
+           construct="every phase: create_ast_from_phase(...) then the pass pipeline, its result stored "
+                     "for lowering",
+           why="a phase lowered from the unprepared tree")
+
+
+def check(run, P):
+    _check_main(run, P)
+    from . import generic
+    generic.lints(run, P, "C03")
